@@ -132,6 +132,12 @@ impl Property for C16 {
             })
             .boxed()
     }
+    /// the same search again, a fifth of the cases, in the overflow-checked build of the harness
+    /// (debug assertions and overflow checks of the library on): "never a panic" is a claim about
+    /// every build profile
+    fn epilogue(&self, tier: Tier, seed: u64, _counters: &std::collections::BTreeMap<String, u64>, extra: &mut std::collections::BTreeMap<String, serde_json::Value>) -> Result<(), (Fail, serde_json::Value)> {
+        crate::engine::run_checked_profile_n("C16", tier, seed, Some((self.cases(tier) / 5).max(50)), extra)
+    }
     fn check(&self, case: &C16Case) -> Check {
         if case.f32 {
             run::<f32>(case)
